@@ -13,6 +13,10 @@ impl Monitor for C07 {
     fn prop(&self) -> &'static str {
         "C07"
     }
+    fn scalable(&self, g: &str) -> bool {
+        let _ = g;
+        true
+    }
     fn gens(&self, tier: Tier) -> Vec<Gen> {
         vec![gen("data-twins", tier.pick(12_000, 3_000_000, 8)), gen("bitflip-twins", tier.pick(300, 40_000, 1)), gen("join-twins", tier.pick(3_000, 500_000, 4))]
     }
